@@ -1,5 +1,5 @@
 use poulpy_hal::{
-    layouts::{Data, DataMut, DataRef, FillUniform, ReaderFrom, WriterTo},
+    layouts::{Backend, Data, DataMut, DataRef, FillUniform, Module, ReaderFrom, WriterTo},
     source::Source,
 };
 
@@ -202,6 +202,8 @@ where
         }
     }
 }
+
+impl<B: Backend> GGLWEToGGSWKeyDecompress for Module<B> where Self: GGLWEDecompress {}
 
 // module-only API: decompression is provided by `GGLWEToGGSWKeyDecompress` on `Module`.
 
